@@ -14,6 +14,8 @@
                                distinct_without_cache, distinct_binders_unfold_ok
   Props/C05/Fusion.lean        alphaMangle_mixed_ok (mixed bound sets produced by fusing nested binders),
                                mixed_bound_per_name, mixed_bound_whole_term_witness, mixed_bound_capture_witness
+  Props/C05/Gensym.lean        gensym_source_form (over Gen/C05Gensym.lean, regenerated from interpreter.py every run),
+                               supply_injective, supply_fresh_for_old, per_context_supply_witness
   this file                    alpha_rename_denote: the six class statements as one
 
   All statements are for every term / environment / substitution / cache state (structural induction over
@@ -26,6 +28,7 @@ import FunsorVerif.Props.C05.Alpha
 import FunsorVerif.Props.C05.Subst
 import FunsorVerif.Props.C05.Mangle
 import FunsorVerif.Props.C05.Fusion
+import FunsorVerif.Props.C05.Gensym
 namespace FV.Props.C05
 open FV FV.C05
 
